@@ -97,11 +97,13 @@ def body_factory(ctx):
         kw_ctor = {}
         if case.get("tempfile_path"):
             kw_ctor["tempfile_path"] = os.path.join(ctx.workdir, "c10-tempfiles")
+        handed = np.random.default_rng(case["seed"])
+        state0 = repr(handed.bit_generator.state)
         if second and case.get("alias"):
             # `random_state` is the (deprecated, still accepted) former name of `rng`
-            joker = tj.TheJoker(prior, random_state=np.random.default_rng(case["seed"]), pool=pool, **kw_ctor)
+            joker = tj.TheJoker(prior, random_state=handed, pool=pool, **kw_ctor)
         else:
-            joker = tj.TheJoker(prior, rng=np.random.default_rng(case["seed"]), pool=pool, **kw_ctor)
+            joker = tj.TheJoker(prior, rng=handed, pool=pool, **kw_ctor)
         prng = np.random.default_rng(case["seed"] + 1)
         if case.get("alias") is not None and case["seed"] % 3 == 0:
             # a sampler created without a generator makes one of its own: that, too, must leave the global generators alone
@@ -153,6 +155,10 @@ def body_factory(ctx):
             if global_state() != g0:
                 raise Violation("call %d (%s) changed numpy's or Python's global random state" % (k, e))
             outs.append(o)
+        # randomness is taken from the generator that was handed over: after a call that draws random numbers it has moved on
+        if any(c_["entry"].startswith(("rej", "iter")) for c_ in case["history"]) and repr(handed.bit_generator.state) == state0:
+            raise Violation("the generator handed to TheJoker was not advanced by calls that draw random numbers (the sampler "
+                            "works on a copy: two samplers given the same generator would repeat each other's draws)")
         return outs
 
     def body(case):
